@@ -587,7 +587,8 @@ func plRandConf(rng *rand.Rand, focus string) plConf {
 		c.ProvDelay = time.Duration(rng.Intn(800)) * time.Microsecond
 	}
 	if focus == "c12" {
-		c.Startup = plRandStartup(rng, n, true)
+		// mostly 20..60 ms steps; some profiles with steps of a few ms (tokens closer than timer granularity)
+		c.Startup = plRandStartup(rng, n, rng.Intn(4) != 0)
 		c.RPS = plRandRPS(rng, true)
 	} else {
 		c.Startup = plRandStartup(rng, n, rng.Intn(4) == 0)
